@@ -182,6 +182,23 @@ func (c *chanDataChecker) check(num int, payload []byte, pat int) {
 		if !ok {
 			c.violate("chandata-reencode:differs", "Encode() of the decoded message (Data aliasing Raw) produced %s", hexs(re))
 		}
+		// The same object used for the next message: Reset, append the new payload to Data, Encode (what the type's
+		// Reset / grow helpers are for). The result is the new message, whatever the object held before.
+		if n <= 64 || n%251 == 0 {
+			c.dec.Reset()
+			c.dec.Number = proto.ChannelNumber(num) //nolint:gosec
+			c.dec.Data = append(c.dec.Data, payload...)
+			c.dec.Encode()
+			re = c.dec.Raw
+			ok = len(re) == wantLen && int(binary.BigEndian.Uint16(re[0:2])) == num && int(binary.BigEndian.Uint16(re[2:4])) == n &&
+				bytes.Equal(re[4:4+n], payload)
+			for i := 4 + n; ok && i < len(re); i++ {
+				ok = re[i] == 0
+			}
+			if !ok {
+				c.violate("chandata-reuse:reset-append-encode-differs", "Reset(); Data = append(Data, payload...); Encode() on a used message produced %s", hexs(re))
+			}
+		}
 	case err == nil:
 		c.violate("chandata-roundtrip:invalid-number-accepted", "Decode succeeded for a channel number outside 0x4000..0x7FFF")
 	}
